@@ -187,7 +187,12 @@ func (e *env) pushArtifact(title string, unpack bool) (string, string, error) {
 	return tag, ld.Digest.Encoded(), nil
 }
 
-func runCase(c Case, e *env, res *lib.Result) string {
+func runCase(c Case, e *env, res *lib.Result) (ret string) {
+	defer res.Recover(c)
+	return runCaseRaw(c, e, res)
+}
+
+func runCaseRaw(c Case, e *env, res *lib.Result) string {
 	ctx, cancel := context.WithTimeout(context.Background(), 20*time.Second)
 	defer cancel()
 	switch c.Kind {
